@@ -318,14 +318,15 @@ def nhflux_file_round_trip(variant: bool, adjoint: bool, iw: int, na: int, nz: i
     assert back.metadata["label"] == "NHFLUX"
     for key in keys:
         assert eq(back.metadata[key], head[key] if key in head else 0), "specification entry read back"
+    ptr = [p0, p1, p2, p3]   # the pointer values as nhflux_container lays them out (not the container after writing)
     assert back.incomingPointersToAllAssemblies.shape == (nsurf, na)
     for j in range(nsurf):
         for i in range(na):
-            assert back.incomingPointersToAllAssemblies[j, i] == d.incomingPointersToAllAssemblies[j, i]
-    assert list(back.externalCurrentPointers) == list(d.externalCurrentPointers) and list(back.geodstCoordMap) == list(d.geodstCoordMap)
+            assert back.incomingPointersToAllAssemblies[j, i] == ptr[(j * na + i) % 4]
+    assert list(back.externalCurrentPointers) == [ptr[e % 4] + 1 for e in range(next_)] and list(back.geodstCoordMap) == [ptr[(i + 1) % 4] for i in range(na)]
     if variant:
-        assert list(back.outgoingPCSymSecPointers) == list(d.outgoingPCSymSecPointers)
-        assert list(back.ingoingPCSymSecPointers) == list(d.ingoingPCSymSecPointers)
+        assert list(back.outgoingPCSymSecPointers) == [ptr[(e + 2) % 4] for e in range(nsym + 1)]
+        assert list(back.ingoingPCSymSecPointers) == [ptr[(e + 3) % 4] for e in range(nsym + 1)]
     assert back.fluxMomentsAll.shape == (na, nz, nmom + (nmoms if variant else 0), ng)
     got, want = flat(back.fluxMomentsAll.tolist()), flat(vals["flux"])
     for k in range(len(want)):
